@@ -1240,7 +1240,13 @@ for _n, _lo, _hi in (("StatusCode::is_informational", 100, 199), ("StatusCode::i
 def _httparse_parse(call):
     st = call.st
     inp = call.arg_key(call.args[1])
-    limit = tuple(call.fr.gargs)   # const generics of the enclosing parser instance (the field limit N)
+    # const generics of the enclosing parser instance (the field limit N): of this frame, or - when the tokeniser call sits in
+    # a non-generic helper that is handed the header array as a slice - of the nearest caller that has any
+    limit = ()
+    for f_ in reversed(st.frames):
+        if getattr(f_, "gargs", None):
+            limit = tuple(f_.gargs)
+            break
     if inp == TOP:
         return NotImplemented
     kind = "request" if "Request" in call.path else "response"
